@@ -372,6 +372,23 @@ def generate(outdir, seed, npairs):
                  "BindAdmits<%s, %s>::by_ref, BindAdmits<%s, %s>::by_val, BindAdmits<%s, %s>::mixed, BindAdmits<%s, %s>::ret});" % (
                      tg._cq(a.name), tg._cq(b.name), tg._cq(rule), "true" if exp else "false", a.cpp, b.cpp, b.cpp, a.cpp, a.cpp, a.cpp, b.cpp, b.cpp, a.cpp, b.cpp, a.cpp, b.cpp, a.cpp, b.cpp, a.cpp, b.cpp,
                      "VfBindIf%d" % k, b.cpp, "VfBindIf%d" % k, b.cpp, "VfBindIf%d" % k, b.cpp, "VfBindIf%d" % k, b.cpp))
+    L += ["  return v;", "}"]
+    # trait-only facts: tuples of (const) references as std::tie / std::forward_as_tuple produce them, against the sequences the documentation pairs tuples with
+    facts = []
+    for en in ["string", "i32", "double"]:
+        e = P(en).cpp
+        for n in (1, 2, 3):
+            cref = "std::tuple<%s>" % ", ".join(["const %s&" % e] * n); ref = "std::tuple<%s>" % ", ".join(["%s&" % e] * n); val = "std::tuple<%s>" % ", ".join([e] * n)
+            seqs = [("std::vector<%s>" % e, "tuple of const references (std::tie on const values) ~ vector<T>"), ("std::array<%s, %d>" % (e, n), "tuple of const references ~ array<T,N>")] if en != "i32" else []
+            for b, rule in seqs:
+                facts.append((cref, b, rule, True)); facts.append((ref, b, rule.replace("const references", "references"), True))
+            facts.append((cref, val, "tuple of const references ~ tuple of values", True)); facts.append((ref, val, "tuple of references ~ tuple of values", True))
+        facts.append(("std::pair<const %s&, const %s&>" % (e, e), "std::pair<%s, %s>" % (e, e), "pair of const references ~ pair of values", True))
+        facts.append(("std::pair<const %s&, const %s&>" % (e, e), "std::tuple<%s, %s>" % (e, e), "pair of const references ~ tuple of values", True))
+    L += ["std::vector<FungFact> fung_facts() {", "  std::vector<FungFact> v;"]
+    for (a, b, rule, exp) in facts:
+        L.append("  v.push_back(FungFact{%s, %s, %s, %s, nop::IsFungible<%s, %s>::value, nop::IsFungible<%s, %s>::value, ProtocolWriteAdmits<%s, %s>::value});" % (
+            tg._cq(a), tg._cq(b), tg._cq(rule), "true" if exp else "false", a, b, b, a, b, a))
     L += ["  return v;", "}", "}"]
     # split the pair table over several TUs to bound compile time
     p = os.path.join(outdir, "ftypes_pairs.cpp")
